@@ -350,7 +350,7 @@ CNT   .blkw 1
 .end
 ";
 // handler: saves R0,R1 on the supervisor stack, bumps a counter, reads KBDR, restores, RTI
-const INT_HANDLER: &str = "
+pub const INT_HANDLER: &str = "
 .orig x1000
 H     ADD R6, R6, #-2
       STR R0, R6, #0
@@ -594,6 +594,7 @@ pub fn emit_machine(a: &Args, out: &mut Out) {
     if kind == "repro" { crate::scen2::gen_repro(a, out, 1, a.get_u64("n", if a.thorough() { 200 } else { 20 })); return; }
     if kind == "strictpairs" { crate::scen2::gen_strict_pairs(a, out, 1, a.get_u64("n", if a.thorough() { 400 } else { 40 }), false); return; }
     if kind == "strictfull" { crate::scen2::gen_strict_pairs(a, out, 1, a.get_u64("n", if a.thorough() { 200 } else { 20 }), true); return; }
+    if kind == "run" { crate::scen2::gen_run(a, out, 1, a.get_u64("n", if a.thorough() { 300 } else { 30 }), a.get_u64("np", if a.thorough() { 150 } else { 15 })); return; }
     if kind == "edge" { gen_edge(a, out, 1, a.get_u64("stride", if a.thorough() { 1 } else { 3 }) as u16); return; }
     let scale = if a.thorough() { 12 } else { 1 };
     let n = |k: &str, d: u64| a.get_u64(k, d * scale);
